@@ -217,8 +217,6 @@ def gen_program(rng, spec, chunks_of, cols=None, wrong_type=0.03):
             if op in ("in", "not in"):
                 k = rng.choice([0, 1, 1, 2, 3])
                 const = [_const_pool(rng, spec, name, chunks_of.get(name)) for _ in range(k)]
-                if kind == "ts":
-                    const = const
             else:
                 const = _const_pool(rng, spec, name, chunks_of.get(name))
             if rng.random() < wrong_type and op not in ("in", "not in"):
